@@ -206,7 +206,7 @@ def monitor(item):
                 """Data-flow: only primitives with an operand that depends on the traced (float) inputs are value-dependent."""
                 tainted = set(id(v) for v, t in zip(jp.invars, tainted_in) if t)
                 for eqn in jp.eqns:
-                    ops = [hasattr(v, "count") and id(v) in tainted for v in eqn.invars]
+                    ops = [(not hasattr(v, "val")) and id(v) in tainted for v in eqn.invars]
                     dep = any(ops)
                     if dep and eqn.primitive.name in WATCH:
                         prims[eqn.primitive.name] = prims.get(eqn.primitive.name, 0) + 1
